@@ -508,48 +508,82 @@ func runREG(c *Ctx, r *Result, rule string) {
 	var seq []string
 	var envVal ssa.Value
 	baseOK := false
+	isBaseEnvLoad := func(v ssa.Value) bool {
+		ld, ok := v.(*ssa.UnOp)
+		if !ok {
+			return false
+		}
+		g, ok := ld.X.(*ssa.Global)
+		return ok && g.Name() == "baseEnv"
+	}
+	isEnvPtr := func(t types.Type) bool {
+		p, ok := t.Underlying().(*types.Pointer)
+		return ok && strings.HasSuffix(p.Elem().String(), ".environment")
+	}
+	bindAllSource := func(a ssa.Value) string {
+		switch a := a.(type) {
+		case *ssa.Call:
+			if a.Call.StaticCallee() == timeCallables {
+				return "time"
+			}
+		case *ssa.UnOp:
+			// the expression's own registry: the map-typed field of the receiver
+			if fa, ok := a.X.(*ssa.FieldAddr); ok && len(f.Params) > 0 && fa.X == f.Params[0] {
+				if _, isMap := a.Type().Underlying().(*types.Map); isMap {
+					return "registry"
+				}
+			}
+		}
+		return "?"
+	}
 	for _, b := range f.Blocks {
 		for _, ins := range b.Instrs {
-			call, ok := ins.(*ssa.Call)
-			if !ok {
-				continue
-			}
-			switch call.Call.StaticCallee() {
-			case newEnvironment:
-				envVal = call
-				if ld, ok := call.Call.Args[0].(*ssa.UnOp); ok {
-					if g, ok := ld.X.(*ssa.Global); ok && g.Name() == "baseEnv" {
+			switch x := ins.(type) {
+			case *ssa.Alloc:
+				// a frame built in place: &environment{parent: baseEnv, ...}
+				if x.Heap && isEnvPtr(x.Type()) {
+					envVal = x
+					seq = append(seq, "new")
+				}
+			case *ssa.Store:
+				if fa, ok := x.Addr.(*ssa.FieldAddr); ok && fa.X == envVal && envVal != nil && isEnvPtr(x.Val.Type()) {
+					if isBaseEnvLoad(x.Val) {
 						baseOK = true
 					}
 				}
-				seq = append(seq, "new")
-			case bind:
-				if call.Call.Args[0] == envVal {
-					if k, ok := call.Call.Args[1].(*ssa.Const); ok && k.Value != nil && k.Value.ExactString() == `"$"` {
-						seq = append(seq, "bind$")
-					} else {
-						seq = append(seq, "bind?")
-					}
-				}
-			case bindAll:
-				if call.Call.Args[0] != envVal {
-					continue
-				}
-				src := "?"
-				switch a := call.Call.Args[1].(type) {
-				case *ssa.Call:
-					if a.Call.StaticCallee() == timeCallables {
-						src = "time"
-					}
-				case *ssa.UnOp:
-					// the expression's own registry: the map-typed field of the receiver
-					if fa, ok := a.X.(*ssa.FieldAddr); ok && len(f.Params) > 0 && fa.X == f.Params[0] {
-						if _, isMap := a.Type().Underlying().(*types.Map); isMap {
-							src = "registry"
+			case *ssa.MapUpdate:
+				// env.symbols["$"] = input
+				if ld, ok := x.Map.(*ssa.UnOp); ok {
+					if fa, ok := ld.X.(*ssa.FieldAddr); ok && fa.X == envVal && envVal != nil {
+						if k, ok := x.Key.(*ssa.Const); ok && k.Value != nil && k.Value.ExactString() == `"$"` {
+							seq = append(seq, "bind$")
+						} else {
+							seq = append(seq, "bind?")
 						}
 					}
 				}
-				seq = append(seq, "bindAll:"+src)
+			case *ssa.Call:
+				switch x.Call.StaticCallee() {
+				case newEnvironment:
+					envVal = x
+					if isBaseEnvLoad(x.Call.Args[0]) {
+						baseOK = true
+					}
+					seq = append(seq, "new")
+				case bind:
+					if x.Call.Args[0] == envVal {
+						if k, ok := x.Call.Args[1].(*ssa.Const); ok && k.Value != nil && k.Value.ExactString() == `"$"` {
+							seq = append(seq, "bind$")
+						} else {
+							seq = append(seq, "bind?")
+						}
+					}
+				case bindAll:
+					if x.Call.Args[0] != envVal {
+						continue
+					}
+					seq = append(seq, "bindAll:"+bindAllSource(x.Call.Args[1]))
+				}
 			}
 		}
 	}
@@ -768,44 +802,71 @@ func runSCOPE(c *Ctx, r *Result, rule string) {
 		r.LoseAnchor("SCOPE: type environment not found")
 		return
 	}
-	parentUsers := map[string]string{}
+	// the parent link is written only while a frame is being built (the frame is an object the
+	// function has just allocated) and read only by functions that write nothing (lookup walks
+	// the chain; a function that walks it and also binds could bind into an outer frame)
+	okUsers := true
+	var us []string
+	nWrites, nReads := 0, 0
 	for _, f := range c.W.FuncsOf(c.Lib) {
+		writesSomething := false
+		for _, ins := range instrsIn(f) {
+			switch x := ins.(type) {
+			case *ssa.MapUpdate:
+				writesSomething = true
+			case *ssa.Store:
+				if _, isAlloc := x.Addr.(*ssa.Alloc); !isAlloc {
+					if fa, ok := x.Addr.(*ssa.FieldAddr); ok {
+						if _, fresh := fa.X.(*ssa.Alloc); fresh {
+							continue // initialising an object of its own
+						}
+					}
+					writesSomething = true
+				}
+			}
+		}
 		for _, ins := range instrsIn(f) {
 			fa, ok := ins.(*ssa.FieldAddr)
 			if !ok || !isNamed(fa.X.Type(), "jsonata-go", "environment") && !strings.HasSuffix(fa.X.Type().String(), ".environment") {
 				continue
 			}
-			if fieldKey(fa.X.Type(), fa.Field) != repoModule+".environment.parent" {
+			st, isStruct := fa.X.Type().Underlying().(*types.Pointer).Elem().Underlying().(*types.Struct)
+			if !isStruct {
+				continue
+			}
+			// the parent link: the field whose type is a pointer to environment itself
+			if pt, isPtr := st.Field(fa.Field).Type().(*types.Pointer); !isPtr || !types.Identical(pt.Elem(), fa.X.Type().Underlying().(*types.Pointer).Elem()) {
 				continue
 			}
 			kind := "read"
 			if fa.Referrers() != nil {
 				for _, ref := range *fa.Referrers() {
-					if st, ok := ref.(*ssa.Store); ok && st.Addr == ssa.Value(fa) {
+					if stv, ok := ref.(*ssa.Store); ok && stv.Addr == ssa.Value(fa) {
 						kind = "write"
 					}
 				}
 			}
-			parentUsers[shortFn(f)] = kind
+			us = append(us, shortFn(f)+"("+kind+")")
+			switch kind {
+			case "write":
+				nWrites++
+				if _, fresh := fa.X.(*ssa.Alloc); !fresh {
+					okUsers = false
+				}
+			case "read":
+				nReads++
+				if writesSomething {
+					okUsers = false
+				}
+			}
 		}
 	}
 	o := Obligation{Rule: rule, Key: "environment.parent:users", Fn: "jsonata.environment", Pos: c.W.Pos(envT.Pos()), Nontrivial: true}
-	okUsers := true
-	var us []string
-	for f, k := range parentUsers {
-		us = append(us, f+"("+k+")")
-		switch {
-		case f == "jsonata.newEnvironment" && k == "write":
-		case f == "(*jsonata.environment).lookup" && k == "read":
-		default:
-			okUsers = false
-		}
-	}
 	sort.Strings(us)
-	if okUsers && len(us) == 2 {
-		o.Verdict, o.Reason = Discharged, "the parent link is set by newEnvironment and followed only by lookup: "+strings.Join(us, ", ")
+	if okUsers && nWrites >= 1 && nReads >= 1 {
+		o.Verdict, o.Reason = Discharged, "the parent link is set only in frames under construction and followed only by functions that write nothing: "+strings.Join(us, ", ")
 	} else {
-		o.Verdict, o.Reason = Finding, "the scope chain is used outside newEnvironment/lookup: "+strings.Join(us, ", ")+" (bind must not walk to a parent frame)"
+		o.Verdict, o.Reason = Finding, "the scope chain is written in an existing frame, or followed by a function that also writes: "+strings.Join(us, ", ")+" (bind must not walk to a parent frame)"
 	}
 	r.Add(o)
 	// lookup is write-free
